@@ -61,6 +61,13 @@ LONG = [
     ("int a;\nint f(void)\n{\n  return a b;\n}\n", "input.c"),
     ("typedef int a;\na g(a x)\n{\n  a secret = x;\n  return secret;\n}\n", "input.c"),
     ("int ok1;\nint ok2;\nint bad = (1;\n", "input.c"),
+    # rarely taken parser paths (implicit int, old-style lists, specifier-less declarations) next to programs that depend
+    # on typedef names being accepted wherever an identifier may be declared
+    ("int run(void) { extern helper(); static s1; for (register i = 0; i < 2; i++) ; return helper(); }", "one.c"),
+    ("typedef int T; struct S { char T; }; int g(short T); void h(void) { int T; { typedef char T; T c; } }", "two.c"),
+    ("enum colour { RED, GREEN, BLUE }; int pick(int n) { return n ? RED : BLUE; }", "en.c"),
+    ("typedef int RED; int twice(int n) { if (n) { RED r = n; return r + r; } return 0; }", "td.c"),
+    ("old(a, b) register a; char *b; { return a; } static z; const w = 1;", "kr.c"),
     ("typedef int T; T f(T a) { T b = a; return b; }", "p.c"),
     ("int T; int g(int c) { T = c; return T * 2; }", "q.c"),
 ]
